@@ -66,9 +66,10 @@ def mk(variants, started=None, ended=None, edstart='present', pre_op=False, T=60
     ex = example
     if ex is None:
         ex = {n: 'abcdefgh'[i] for i, (n, t) in enumerate(sym) if t == 'str'}
-        fr = [12.5, 0.25, 7.75, 30.5, 1.125, 3.0, 0.5, 99.875, 2.5, 10.25]
+        fr = [12.5, '2.5e1', 7.75, '.5', 1.125, '+3', '6.', 99.875, ' 7 ', '1E2', 0.25, '007']
+        off = sum(map(ord, cid)) % len(fr)       # different cells start at different spellings
         for i, (n, t) in enumerate([x for x in sym if x[1] == 'int']):
-            ex[n] = fr[i % len(fr)]
+            ex[n] = fr[(off + i) % len(fr)]
     return Cell(pid=PID, cid=cid, harness='h_access:timing_cell', params=P, sym=sym, pre=pre,
                 stubs=('hash', 'float', 'parse'), timeout=T, cost=len(sym), example=ex)
 
